@@ -96,7 +96,12 @@ type traceRule struct {
 	// constant propagation through one atomic status field: Load returns the
 	// tracked value, Store/CompareAndSwap update it (state key "T")
 	trackField string
-	args       []Value // abstract values bound to the root function's parameters
+	// trackAny: interference mode for trackField. Every Load may return any
+	// value of this domain (another goroutine may have stored it), and a
+	// compare-and-swap may succeed or fail; used to enumerate the transitions
+	// a function can *attempt* under concurrency.
+	trackAny []string
+	args     []Value // abstract values bound to the root function's parameters
 }
 
 type traceDom struct {
@@ -108,7 +113,34 @@ func (d *traceDom) Call(ip *Interp, fr *Frame, st *State, call *ast.CallExpr, c 
 	s := st.Dom.(kv)
 	var tracked []Value
 	isTracked := false
-	if d.r.trackField != "" {
+	if d.r.trackField != "" && d.r.trackAny != nil {
+		if fk, m := atomicOp(fr.Fn.Info(), call); fk == d.r.trackField {
+			var ev *callEvent
+			if d.r.classify != nil {
+				ev = d.r.classify(fr, call, c, args)
+			}
+			if ev != nil && d.r.step != nil && ev.Name != "" {
+				s = d.r.step(s, Ev{Name: ev.Name, Node: call, Call: call, C: c, Fr: fr, Args: args, Ip: ip, St: st})
+			}
+			ns := st.WithDom(s)
+			switch m {
+			case "Load":
+				var outs []Out
+				for _, v := range d.r.trackAny {
+					outs = append(outs, Out{St: ns, Vals: []Value{{Kind: VConst, S: v}}})
+				}
+				return outs, true
+			case "CompareAndSwap":
+				won := ns
+				if d.r.step != nil {
+					won = st.WithDom(d.r.step(s, Ev{Name: "casok", Node: call, Call: call, C: c, Fr: fr, Args: args, Ip: ip, St: st}))
+				}
+				return []Out{{St: won, Vals: []Value{boolVal(true)}}, {St: ns, Vals: []Value{boolVal(false)}}}, true
+			}
+			return []Out{{St: ns}}, true
+		}
+	}
+	if d.r.trackField != "" && d.r.trackAny == nil {
 		if fk, m := atomicOp(fr.Fn.Info(), call); fk == d.r.trackField {
 			isTracked = true
 			cur := s.get("T")
